@@ -7,6 +7,8 @@
 mod bitboards;
 mod common;
 mod explore;
+mod fenfuzz;
+mod mgen;
 mod oracles;
 mod positions;
 mod roots;
@@ -79,8 +81,16 @@ fn main() {
             gate();
             positions::run(&cmd, &args)
         }
+        "C06" => {
+            gate();
+            fenfuzz::run_c06(&args)
+        }
         "C08" => tables::run_c08(&args),
         "C09" => tables::run_c09(&args),
+        "C10" => {
+            gate();
+            mgen::run_c10(&args)
+        }
         "C14" => small::run_c14(&args),
         "C16" => small::run_c16(&args),
         "C17" => {
@@ -109,8 +119,10 @@ fn replay(args: &Args) -> i32 {
     let run = || -> Vec<Divergence> {
         match prop.as_str() {
             "C01" | "C02" | "C03" | "C04" | "C05" => positions::replay_case(&prop, case),
+            "C06" => fenfuzz::replay_c06(case),
             "C08" => tables::replay_c08(case),
             "C09" => tables::c09_all().2,
+            "C10" => mgen::replay_c10(case),
             "C14" => small::replay_c14(case),
             "C16" => small::replay_c16(case),
             "C17" => small::c17_walk().divs.into_iter().map(|x| x.0).collect(),
